@@ -11,6 +11,18 @@ NOTE_COMMON = ("Theorems are about a hand-written Lean model; the model is tied 
                "float rounding measured not proved. Axioms: propext, Classical.choice, Quot.sound only.")
 
 CLAIMS = {
+ "C05": dict(
+   text="Proof (Lean 4): curves_are_content — on any compatible grid and for any streams, on either scale, every row of the "
+        "cascade's table has H_hot = exact heat content of the hot streams below the row temperature, H_cold = cold content "
+        "below + Qc (the documented offset), H_net = H_cold - H_hot >= 0 with a zero row; span_eq_duty; "
+        "real_reports_shifted_targets (the heat-recovery offset makes the real table report the shifted Qh, Qc, Qr); "
+        "row_bookkeeping and deltaVals_gap (dH = dT*CP, CP_net = CP_cold - CP_hot, dT = gap to the row above). Rows inserted "
+        "later keep every curve by C08.curves_preserved. The complete get_process_heat_cascade (cascade + shift + "
+        "constant-enthalpy projection + insertion) is modelled and compared cell by cell on 300+ stream sets per run, and the "
+        "service-level oracle checks all clauses on every row (14k+ rows per run) of both tables of every zone against exact "
+        "Fraction heat contents.",
+   technique="Lean 4 proof (closed form of the cascade columns) + correspondence testing + exact row-by-row oracle",
+   design="§6 C05"),
  "C08": dict(
    text="Proof (Lean 4) about the model of insert_temperature_interval (all helpers transcribed; after the two fix: commits): "
         "curves_preserved — for every table (any number of rows) whose temperature column and interpolated column c are numeric "
